@@ -33,8 +33,13 @@ def finished_omitted_fault_location(mode: EnumOf(TransmissionMode), crc: EnumOf(
     requires(both(cc >= 0, 0 <= fv, fv < pow256w(fw)))
     conf = mk_conf(we, ws, src, seq, dst, mode, crc, large, Direction.TOWARDS_SENDER, NO_SEG)
     loc = EntityIdTlv(be(fw, fv))
+    caller_params = None
     if how == "constructor":
-        pdu = FinishedPdu(conf, FinishedParams(cc, dc, fs, [], loc))
+        caller_params = FinishedParams(cc, dc, fs, [], loc)
+        caller_snap = snapshot(caller_params)
+        pdu = FinishedPdu(conf, caller_params)
+        twin = FinishedPdu(conf, FinishedParams(cc, dc, fs, [], EntityIdTlv(be(fw, fv))))
+        ensures("equal-to-twin-before-pack", pdu == twin)
     elif how == "setter":
         pdu = FinishedPdu(conf, FinishedParams(cc, dc, fs, [], None))
         pdu.pack()
@@ -45,6 +50,11 @@ def finished_omitted_fault_location(mode: EnumOf(TransmissionMode), crc: EnumOf(
         pdu.condition_code = cc
     raw = pdu.pack()
     omitted = either(cc == ConditionCode.NO_ERROR, cc == ConditionCode.UNSUPPORTED_CHECKSUM_TYPE)
+    if caller_params is not None:
+        # packing neither touches the caller's parameter object nor changes equality, and is repeatable
+        ensures("caller-params-untouched-by-pack", same_state(caller_params, caller_snap))
+        ensures("equal-to-twin-after-pack", both(pdu == twin, is_same(pdu.fault_location, loc)))
+    ensures("pack-twice", pdu.pack() == raw)
     ensures("packet_len", pdu.packet_len == len(raw))
     ensures("data-field-len", pdu.pdu_header.pdu_data_field_len == len(raw) - (4 + 2 * we + ws))
     tail = entity_id_tlv(fw, fv)
@@ -123,3 +133,65 @@ def frame_setters_after_unpack(scid: IntRange(0, 65535), vcid: IntRange(0, 63), 
     fresh = TransferFrame(fresh_header, TransferFrameDataField(TfdzConstructionRules(rule), upid, final, ptr), None,
                           ocf if has_ocf else None, fecf if has_fecf else None)
     ensures("octets-as-fresh", r2 == fresh.pack(False, FrameType.FIXED))
+
+
+# ------------------------------------------------------------------------------------------------ pack() is pure
+from spacepackets.cfdp.pdu import EofPdu, AckPdu, PromptPdu, KeepAlivePdu, NakPdu, MetadataPdu, FileDataPdu, DirectiveType, TransactionStatus
+from spacepackets.cfdp.pdu.metadata import MetadataParams
+from spacepackets.cfdp.pdu.file_data import FileDataParams, SegmentMetadata, RecordContinuationState
+from spacepackets.cfdp.pdu.prompt import ResponseRequired
+from spacepackets.cfdp.defs import ChecksumType
+from spacepackets.cfdp.tlv import FlowLabelTlv
+from spacepackets.ecss.tc import PusTc
+from spacepackets.ecss.tm import PusTm
+
+
+def pack_is_pure(build, caller_objects):
+    """packing (twice) leaves the object equal to an identically built twin, returns the same octets, and leaves every object the
+    caller handed in exactly as it was"""
+    obj = build()
+    twin = build()
+    snaps = [snapshot(c) for c in caller_objects]
+    r1 = obj.pack()
+    r2 = obj.pack()
+    ensures("pack-twice-same-octets", r1 == r2)
+    ensures("still-equal-to-twin", both(obj == twin, twin == obj))
+    ensures("twin-packs-the-same", twin.pack() == r1)
+    ensures("caller-objects-untouched", both(*[same_state(c, s) for c, s in zip(caller_objects, snaps)]))
+
+
+@obligation(["C11"], "pack-is-pure/cfdp", verifies=[])
+def pure_cfdp(crc: EnumOf(CrcFlag), large: EnumOf(LargeFileFlag), direction: EnumOf(Direction), cc: EnumOf(ConditionCode),
+              kind: Choice("eof", "finished", "ack", "metadata", "nak", "prompt", "keepalive", "filedata"), size: IntRange(0, 4294967295),
+              data: BytesLen(0, 6)):
+    requires(cc >= 0)
+    conf = mk_conf(1, 2, 3, 4, 5, TransmissionMode.ACKNOWLEDGED, crc, large, direction, NO_SEG)
+    loc = EntityIdTlv(be(2, 9))
+    if kind == "eof":
+        pack_is_pure(lambda: EofPdu(conf, be(4, 7), size, loc, cc), [conf, loc])
+    elif kind == "finished":
+        params = FinishedParams(cc, DeliveryCode.DATA_COMPLETE, FileStatus.FILE_RETAINED, [], loc)
+        pack_is_pure(lambda: FinishedPdu(conf, params), [conf, params, loc])
+    elif kind == "ack":
+        pack_is_pure(lambda: AckPdu(conf, DirectiveType.EOF_PDU, cc, TransactionStatus.ACTIVE), [conf])
+    elif kind == "metadata":
+        opts = [FlowLabelTlv(data)]
+        params = MetadataParams(True, ChecksumType.CRC_32, size, "a", "b")
+        pack_is_pure(lambda: MetadataPdu(conf, params, opts), [conf, params, opts])
+    elif kind == "nak":
+        reqs = [(0, 1), (2, size)]
+        pack_is_pure(lambda: NakPdu(conf, 0, size, reqs), [conf, reqs])
+    elif kind == "prompt":
+        pack_is_pure(lambda: PromptPdu(conf, ResponseRequired.KEEP_ALIVE), [conf])
+    elif kind == "keepalive":
+        pack_is_pure(lambda: KeepAlivePdu(conf, size), [conf])
+    else:
+        meta = SegmentMetadata(RecordContinuationState.START_AND_END, data)
+        params = FileDataParams(data, size, meta)
+        pack_is_pure(lambda: FileDataPdu(conf, params), [conf, params, meta])
+
+
+@obligation(["C11", "C02", "C03"], "pack-is-pure/pus", verifies=[])
+def pure_pus(apid: IntRange(0, 2047), count: IntRange(0, 16383), data: BytesLen(0, 8), ts: BytesLen(0, 9)):
+    pack_is_pure(lambda: PusTc(17, 1, apid, data, count, 3, 5), [data])
+    pack_is_pure(lambda: PusTm(17, 2, ts, data, apid, count, 4, 1, 6), [data, ts])
